@@ -42,9 +42,12 @@ def main() -> int:
         # a second temporary directory on another file system than the
         # scratch datasets (/dev/shm): see dsgen.seams
         other = f"/var/tmp/verif-otherfs-{os.getpid()}"
-        os.makedirs(other, exist_ok=True)
-        os.environ["VERIF_OTHERFS_TMP"] = other
-        atexit.register(shutil.rmtree, other, True)
+        try:
+            os.makedirs(other, exist_ok=True)
+            os.environ["VERIF_OTHERFS_TMP"] = other
+            atexit.register(shutil.rmtree, other, True)
+        except OSError:
+            os.environ["VERIF_OTHERFS_TMP"] = "-"  # knob unavailable
     # `python simlib/main.py` puts simlib/ first on sys.path; we want /verif.
     sys.path[0] = VERIF
     import warnings
